@@ -93,12 +93,12 @@ Proof.
   destruct (nth_error (subs st) s) as [c|] eqn:Ec; [|discriminate].
   destruct (spc c) eqn:Ep.
   - destruct (styps c); inversion E; subst; cbn; (eapply Grows_upd; [exact Ec|ctl_grows]).
-  - otau_inv E. cbn. rewrite (take_blk_subs _ _ _ E). eapply Grows_upd; [exact Ec|ctl_grows].
+  - destruct (styps c) as [tys|]; [|discriminate]. destruct (nth_error tys i) as [ty|]; [|discriminate].
+    destruct (with_node st ty) as [[st1 n]|] eqn:Ew; [|discriminate]. inversion E; subst. cbn.
+    rewrite (with_node_subs _ _ _ _ Ew). eapply Grows_upd; [exact Ec|ctl_grows].
   - destruct (styps c) as [tys|]; [|discriminate].
-    destruct (nth_error tys i) as [ty|]; [|discriminate].
-    pose proof (lookup_subs st ty) as Hl. destruct (lookup st ty) as [st1 n]. cbn in Hl.
-    destruct (nth_error (nodes st1) n) as [nd|]; [|discriminate].
-    destruct (holder nd); [discriminate|]. inversion E; subst. cbn. rewrite Hl.
+    destruct (nth_error (nodes st) n) as [nd|]; [|discriminate].
+    destruct (holder nd); [discriminate|]. inversion E; subst. cbn.
     eapply Grows_upd; [exact Ec|]. destruct (keep nd); [destruct (nlast nd)|]; ctl_grows. eexists. reflexivity.
   - inversion E; subst; cbn; (eapply Grows_upd; [exact Ec|ctl_grows]).
   - destruct (wpend (wild st)); [discriminate|]. inversion E; subst; cbn; (eapply Grows_upd; [exact Ec|ctl_grows]).
@@ -135,7 +135,7 @@ Proof.
   - destruct (nth_error (snodes c) i) as [n|]; [|discriminate].
     destruct (nth_error (nodes st) n) as [nd|]; [|discriminate].
     destruct (holder nd); [discriminate|]. inversion E; subst. cbn. eapply Grows_upd; [exact Ec|ctl_grows].
-  - otau_inv E. cbn. rewrite (take_blk_subs _ _ _ E). eapply Grows_upd; [exact Ec|ctl_grows].
+  - inversion E; subst. cbn. eapply Grows_upd; [exact Ec|ctl_grows].
   - destruct (nth_error (snodes c) i) as [n|]; [|discriminate].
     destruct (nth_error (nodes st) n) as [nd|]; [|discriminate].
     otau_inv E. cbn. rewrite (try_drop_subs _ _ _ E). eapply Grows_upd; [exact Ec|ctl_grows].
